@@ -1853,3 +1853,71 @@ def colors_hls_many(H):
 def pcDelta_long_strings(H):
     a = ["C" + "ASSLGQAYEQYF" * 3, "C" + "AWSVGTDTQYF" * 3, "CASSF", "C" + "ASRLGQAYEQYF" * 3]
     return [prs.pcDelta(a), prs.pdist(a), prs.pdist(["A" * 300, "C" * 300, "A" * 299])]
+
+
+# =============================================================================================
+# larger inputs for the randomised functions; caller-owned list of colour mappers
+# =============================================================================================
+@heap
+def counts_big():
+    return np.array([400, 250, 0, 120, 90, 60, 30, 30, 10, 5, 3, 1, 1])
+
+
+@heap
+def seqs_many():
+    base = "CASSLGQAYEQYF"
+    out = []
+    for i in range(150):
+        j, k = i % len(base), (i * 7) % 20
+        out.append(base[:j] + "ACDEFGHIKLMNPQRSTVWY"[k] + base[j + 1:])
+    return out
+
+
+@heap
+def list_mappers():
+    return [pp.labels_to_colors_tableau, cb_colors, pp.labels_to_colors_hls]
+
+
+@op("subsample", rand=True)
+def subsample_big(H):
+    return prs.subsample(H["counts_big"], 500)
+
+
+@op("downsample", rand=True)
+def downsample_many(H):
+    return [prs.downsample(H["seqs_many"], 40), prs.downsample(pd.Series(H["seqs_many"]), 25)]
+
+
+@op("powerlaw", rand=True)
+def powerlaw_sample_large(H):
+    return prs.powerlaw_sample(size=6000, xmin=1, alpha=2.2)
+
+
+@op("pcDelta", rand=True)
+def pcDelta_many_maxseqs(H):
+    return prs.pcDelta(H["seqs_many"], maxseqs=60, bins=H["bins_arr"])
+
+
+@op("pcDelta")
+def pcDelta_many(H):
+    return prs.pcDelta(H["seqs_many"], bins=H["bins_arr"])
+
+
+@op("kdtree", post=sorted_list)
+def kdtree_many(H):
+    return prs.kdtree(H["seqs_many"], max_edits=1)
+
+
+@op("kdtree", post=sorted_list, pool=True)
+def kdtree_many_ncpu4(H):
+    return prs.kdtree(H["seqs_many"], max_edits=1, n_cpu=4, compression=2)
+
+
+@op("symdel", post=sorted_list)
+def symdel_many(H):
+    return prs.symdel(H["seqs_many"], max_edits=1)
+
+
+@op("clustermap", rand=True, slow=True)
+def clustermap_heap_mappers(H):
+    return pp.similarity_clustermap(H["df_cluster"], meta_columns=H["list_meta"], meta_to_colors=H["list_mappers"])
